@@ -226,6 +226,10 @@ func (t attrSelector) Match(n *html.Node) bool {
 		return attributeNotEqualMatch(t.key, t.val, n, t.ignoreCase)
 	case "~=":
 		// matches elements where the attribute named key is a whitespace-separated list that includes val.
+		// An empty value, or a value containing whitespace, never matches.
+		if t.val == "" || spaceAsciiSet.index(t.val) != -1 {
+			return false
+		}
 		return matchAttribute(n, t.key, func(s string) bool { return matchInclude(t.val, s, t.ignoreCase) })
 	case "|=":
 		return attributeDashMatch(t.key, t.val, n, t.ignoreCase)
@@ -348,7 +352,7 @@ func attributeDashMatch(key, val string, n *html.Node, ignoreCase bool) bool {
 func attributePrefixMatch(key, val string, n *html.Node, ignoreCase bool) bool {
 	return matchAttribute(n, key,
 		func(s string) bool {
-			if strings.TrimSpace(s) == "" {
+			if val == "" || strings.TrimSpace(s) == "" { // an empty value never matches
 				return false
 			}
 			if ignoreCase {
@@ -363,7 +367,7 @@ func attributePrefixMatch(key, val string, n *html.Node, ignoreCase bool) bool {
 func attributeSuffixMatch(key, val string, n *html.Node, ignoreCase bool) bool {
 	return matchAttribute(n, key,
 		func(s string) bool {
-			if strings.TrimSpace(s) == "" {
+			if val == "" || strings.TrimSpace(s) == "" { // an empty value never matches
 				return false
 			}
 			if ignoreCase {
@@ -378,7 +382,7 @@ func attributeSuffixMatch(key, val string, n *html.Node, ignoreCase bool) bool {
 func attributeSubstringMatch(key, val string, n *html.Node, ignoreCase bool) bool {
 	return matchAttribute(n, key,
 		func(s string) bool {
-			if strings.TrimSpace(s) == "" {
+			if val == "" || strings.TrimSpace(s) == "" { // an empty value never matches
 				return false
 			}
 			if ignoreCase {
